@@ -105,6 +105,24 @@ def run_case(case, tier):
             V.append({"mech": "compile_failed:" + str(a.failure or b.failure), "detail": (a.text if a.rc else b.text)[-300:]})
             return res
         C["closures_compiled_twice"] = 1
+        # third time: the same files named through a symbolic link to their directory (relative path, other cwd)
+        link = work / "L" / "viaLink"
+        link.parent.mkdir(parents=True, exist_ok=True)
+        os.symlink(a.root.parent, link, target_is_directory=True)
+        (work / "L" / "out").mkdir()
+        rc3, txt3 = L.compile_closure(Path("viaLink") / a.root.name, work / "L" / "out", name="out", langs=("py", "c", "js", "mat", "combined"),
+                                      cli=True, cwd=str(work / "L"), hashseed="3")
+        if rc3 != 0:
+            V.append({"mech": "compile_failed_through_symlink:" + str(L.classify_compile_failure(rc3, txt3)), "detail": txt3[-300:]})
+        else:
+            C["compiled_through_symlink"] = 1
+            for f in OUTS:
+                fa, fl = a.out / f, work / "L" / "out" / f
+                if fa.exists() and fl.exists() and fa.read_bytes() != fl.read_bytes():
+                    la, lb = fa.read_text(errors="replace").splitlines(), fl.read_text(errors="replace").splitlines()
+                    i = next((k for k in range(min(len(la), len(lb))) if la[k] != lb[k]), min(len(la), len(lb)))
+                    V.append({"mech": f"outputs_differ_through_symlink:{f.split('.')[-1]}", "detail": f"{f} line {i + 1}: {la[i:i + 1]} vs {lb[i:i + 1]}"})
+                    break
         for f in OUTS:
             fa, fb = a.out / f, b.out / f
             C["output_files_compared"] = C.get("output_files_compared", 0) + 1
